@@ -94,13 +94,17 @@ class ChanMachine(ohist.Machine):
         if t == R.T_PLATCAL:
             def ctor():
                 n = specs.lib()
-                b = n.pc.ForcePlatformsCalibrationDataBlock(platforms=[self.lib_item(0), self.lib_item(1)])
+                source = [self.lib_item(0), self.lib_item(1)]
+                b = n.pc.ForcePlatformsCalibrationDataBlock(platforms=source)
+                # the caller goes on using its own list: the block must not follow it
+                source.append(self.lib_item(3))
+                del source[0]
                 # the constructor assigns channels itself: whatever it picked becomes the model
                 return (b, "ctor"), "ctor-unknown"
             out.append(("ctor", ctor))
 
         def decoded():
-            pairs = [(5, 2), (1, 0)]
+            pairs = [(40000, 2), (1, 0)] if t == R.T_PLATDATA else [(5, 2), (1, 0)]
             data = R.encode_block(self.base_spec(pairs))
             b = specs.lib_decode(t, self.base_spec([])["format"], data)[0]
             return (b, "decoded"), list(pairs)
@@ -159,7 +163,7 @@ class ChanMachine(ohist.Machine):
         out = []
         if len(model) < MAXITEMS and free:
             out.append(("add", None))
-            out += [("add", c) for c in CHANNELS]
+            out += [("add", c) for c in CHANNELS + ((40000,) if t == R.T_PLATDATA else ())]
         if t == R.T_EMG:
             out += [("remove_label", i) for _, i in model[:1] + model[-1:]] + [("remove_label", "absent")]
         if t == R.T_PLATCAL:
